@@ -64,12 +64,15 @@ def run(ck, pid="C02"):
         ck.cov["traces_validated_against_impl"] += 2
         if f["adf"] or f["hdf5"]:
             ck.finding(key, {"script": wl, "failure": {k: v for k, v in f.items() if v}, "oracle": "TreeDB (ideal node database), extracted from Coq"})
-    nwide = 6 if thorough else 2
+    nwide = 12 if thorough else 4
     for i in range(n + nwide):
         files, nops, big, wide = profile(i)
         if thorough and i % 10 == 9:
             nops *= 3
-        if i >= n:
+        if i >= n and (i - n) % 2 == 1:
+            files, h = (1,), nodedb.gen_wrong_parent(ck.rng)     # delete / rename / move with a parent that is not the parent
+            dist["wrong_parent_histories"] = dist.get("wrong_parent_histories", 0) + 1
+        elif i >= n:
             files, h = (1,), nodedb.gen_wide_rename(ck.rng)      # renames in a parent whose child table spans disk blocks
             dist["wide_rename_histories"] = dist.get("wide_rename_histories", 0) + 1
         else:
